@@ -133,33 +133,44 @@ Theorem C12_path_tripledots : forall C (t : tree C) cwd target_dir p,
 Proof. exact tripledots_entry. Qed.
 Print Assumptions C12_path_tripledots.
 
-(* a named file is taken whatever its name; a named directory is walked whatever its name, and below
-   it exactly the *.py files reachable through entries that are not hidden / __pycache__ / unsafe *)
+(* a named file (or link to one) is taken whatever its name; a named directory (or link to one) is
+   walked whatever its name, and below it exactly the *.py files reachable through entries that are not
+   hidden / __pycache__ / unsafe - where "is a directory" / "is a file" is os.stat, i.e. AFTER following
+   symbolic links: a symlinked sub-directory is searched, a symlinked *.py file is read, dangling and
+   looping links are ignored.  (`= Some l`: the walk did not run out of model fuel.) *)
 Theorem C12_path_named_file : forall C (t : tree C) p d c,
-  lookup C t p = Some (File d c) -> expand_arg C t p = [p].
+  stat C t p = Some (File d c) -> expand_arg C t p = Some [p].
 Proof. exact named_file_taken. Qed.
 Print Assumptions C12_path_named_file.
 
-Theorem C12_path_walk : forall C (t : tree C) p d es f,
-  lookup C t p = Some (Dir d es) ->
-  (In f (expand_arg C t p) <-> exists rel, f = p ++ rel /\ reach C (Dir d es) rel).
+Theorem C12_path_walk : forall C (t : tree C) p d es l f,
+  stat C t p = Some (Dir d es) -> expand_arg C t p = Some l ->
+  (In f l <-> exists rel, f = p ++ rel /\ reach C t p rel).
 Proof. exact named_dir_walked. Qed.
 Print Assumptions C12_path_walk.
 
-Theorem C12_path_walk_names : forall C (t : tree C) rel,
-  reach C t rel -> Forall (fun n => skip_name n = false) rel /\ is_py (last rel []) = true /\ rel <> [].
+Theorem C12_path_missing_entry : forall C (t : tree C) p,
+  stat C t p = None -> expand_arg C t p = Some [].
+Proof. exact missing_entry_ignored. Qed.
+Print Assumptions C12_path_missing_entry.
+
+Theorem C12_path_walk_names : forall C (t : tree C) pre rel,
+  reach C t pre rel -> Forall (fun n => skip_name n = false) rel /\ is_py (last rel []) = true /\ rel <> [].
 Proof. exact reach_names. Qed.
 Print Assumptions C12_path_walk_names.
 
-(* in a tree with unique names per directory, "reachable" = a regular file at that relative path
-   none of whose components is hidden / __pycache__ / unsafe, and whose name ends in .py *)
-Theorem C12_path_walk_is_lookup : forall C rel (t : tree C),
-  uniq C t ->
-  (reach C t rel <->
-   (exists d es, t = Dir d es) /\ rel <> [] /\ (exists d c, lookup C t rel = Some (File d c)) /\
-   Forall (fun n => skip_name n = false) rel /\ is_py (last rel []) = true).
-Proof. exact reach_is_lookup. Qed.
-Print Assumptions C12_path_walk_is_lookup.
+(* symbolic links: the real path of an existing directory is an existing directory that is its own
+   real path (soundness of get_default's second, realpath-based cache key); realpath's result has no
+   link in it *)
+Theorem C12_path_realpath_of_dir : forall C (t : tree C) p,
+  isdir C t p = true ->
+  exists r, realpath C t p = Some r /\ isdir C t r = true /\ realpath C t r = Some r.
+Proof. exact realpath_of_dir. Qed.
+Print Assumptions C12_path_realpath_of_dir.
+
+Theorem C12_path_realpath_clean : forall C (t : tree C) p r, realpath C t p = Some r -> Clean C t r.
+Proof. exact realpath_clean. Qed.
+Print Assumptions C12_path_realpath_clean.
 
 (* a target that does not exist (yet): the search path is evaluated at the first existing ancestor *)
 Theorem C12_path_lookup_dir : forall (t : ftree) d,
@@ -178,9 +189,9 @@ Print Assumptions C12_path_lookup_dir.
 Theorem C12_db_in_effect : forall (t : ftree) (etc : list path) ver q v,
   fresh t etc ver q = inr v ->
   exists d0 files fs,
-    initial_dir t q = Some d0 /\
+    initial_dir t q = inr d0 /\
     get_python_path _ t (q_cwd q) (q_home q) (pyflyby_path (q_env q)) (default_pyflyby_path etc)
-                    (last (dir_chain t d0) []) = PPOk files /\
+                    (real_dir t (last (dir_chain t d0) [])) = PPOk files /\
     all_parsed (map (content_of t) files) = inr fs /\
     (forall i, In i (known v) <-> In_union f_known fs i /\ ~ Forgotten (In_union f_forget fs) i) /\
     (forall i, In i (mandatory v) <-> In_union f_mand fs i /\ ~ Forgotten (In_union f_forget fs) i) /\
@@ -248,20 +259,33 @@ Proof. vm_compute. repeat split. Qed.
 Definition nv_db (n : string) : parsed := inr (mkDbfile [(dec n, dec n)] [] [] []).
 Definition nv_tree : ftree :=
   Dir 1 [(dec "u", Dir 1 [(dec ".pyflyby", File 1 (nv_db "top"));
+                          (dec "shared", Dir 1 [(dec "t.py", File 1 (nv_db "team"))]);
+                          (dec "alias", Link (dec "h/p"));
                           (dec "h", Dir 2 [(dec ".pyflyby", Dir 2 [(dec "x.py", File 2 (nv_db "x"));
                                                                     (dec ".hid.py", File 2 (nv_db "hid"));
                                                                     (dec "__pycache__", Dir 2 [(dec "c.py", File 2 (nv_db "c"))]);
                                                                     (dec "sub", Dir 2 [(dec "z.py", File 2 (nv_db "z"))]);
-                                                                    (dec "notes.txt", File 2 (nv_db "notes"))]);
+                                                                    (dec "notes.txt", File 2 (nv_db "notes"));
+                                                                    (dec "team", Link (dec "/u/shared"));
+                                                                    (dec "lnk.py", Link (dec "notes.txt"));
+                                                                    (dec "dangling.py", Link (dec "nowhere"));
+                                                                    (dec "loop", Link (dec "loop"))]);
                                            (dec "p", Dir 2 [])])])].
 Definition nv_q (cwd : list string) (pp : option string) : query :=
   mkQuery (map dec cwd) (dec "/u") (dec "/u/h/p/t.py") (option_map dec pp, None, None).
+(*    plus  /u/shared/t.py,  /u/alias -> h/p,  and in /u/h/.pyflyby: team -> /u/shared (searched),
+      lnk.py -> notes.txt (read), dangling.py and loop (ignored) *)
 (* default path: .../.pyflyby stops at the device boundary below /u (so /u/.pyflyby is reached only
    through ~/.pyflyby), hidden and __pycache__ entries are skipped inside the directory *)
 Example C12_nonvacuous_path :
   snd (get_default nv_tree [] Fixed [] (nv_q ["u"] None)) =
-  Loaded [map dec ["u"; "h"; ".pyflyby"; "sub"; "z.py"]; map dec ["u"; "h"; ".pyflyby"; "x.py"]; map dec ["u"; ".pyflyby"]]
-         (mkDb [(dec "z", dec "z"); (dec "x", dec "x"); (dec "top", dec "top")] [] [] []).
+  Loaded [map dec ["u"; "h"; ".pyflyby"; "lnk.py"]; map dec ["u"; "h"; ".pyflyby"; "sub"; "z.py"];
+          map dec ["u"; "h"; ".pyflyby"; "team"; "t.py"]; map dec ["u"; "h"; ".pyflyby"; "x.py"]; map dec ["u"; ".pyflyby"]]
+         (mkDb [(dec "notes", dec "notes"); (dec "z", dec "z"); (dec "team", dec "team"); (dec "x", dec "x"); (dec "top", dec "top")] [] [] []).
+Proof. vm_compute. reflexivity. Qed.
+(* a target given through a symbolic link (/u/alias -> h/p) is looked up in the real directory *)
+Example C12_nonvacuous_link_target :
+  initial_dir nv_tree (mkQuery [dec "u"] (dec "/u") (dec "/u/alias/t.py") (None, None, None)) = inr (map dec ["u"; "h"; "p"]).
 Proof. vm_compute. reflexivity. Qed.
 (* a history with a hit: same directory and settings again; then another working directory *)
 Example C12_nonvacuous_cache :
